@@ -25,6 +25,20 @@ theorem hardened_only (C : CryptoFns) (path seed : Bytes) :
       q = .master seed ∨ ∃ chain key i, q = .child chain key i ∧ two31 ≤ i ∧ i < two32 :=
   deriveForPathLog_hardened C path seed
 
+/-- T2a′: the single step `key.derive(i)` refuses exactly the non-hardened indices (no public derivation). -/
+theorem derive_refuses (C : CryptoFns) (k : Key) (i : Nat) :
+    (derive C k i = .error .noPublicDerivation ↔ i < two31) ∧
+      (two31 ≤ i → derive C k i = .ok (splitKey (C.hmac k.chain (0 :: (k.key ++ beBytes 4 i))))) := by
+  have h : Gen.FirstHardenedIndex = two31 := by decide
+  rw [deriveSegs_step, h]
+  constructor
+  · by_cases hi : i < two31
+    · simp [hi]
+    · simp [hi]
+  · intro hi
+    have : ¬ i < two31 := by omega
+    simp [this, ask, Query.hkey, Query.msg, deriveInput]
+
 /-- T2b: outcome of `DeriveForPath` on a path of the grammar with digit strings `segs`: it succeeds iff every
     segment value is below 2^31; otherwise (a value in [2^31, 2^32): the uint32 sum `v + 0x80000000` wraps below
     2^31) it is refused with ErrNoPublicDerivation. Paths outside the grammar are ErrInvalidPath (T2c). -/
